@@ -60,7 +60,7 @@ func (n NodeID) Instance() uint16 {
 }
 
 func (n NodeID) String() string {
-	return fmt.Sprintf("%02x%04x", int8(n.Service()), n.Instance())
+	return fmt.Sprintf("%02x%04x", n.Service(), n.Instance())
 }
 
 // 没有重复ID的有序集合
